@@ -394,8 +394,8 @@ structure SrcArgs where
 open TonVerif.Generated.HeapSrc TonVerif.Proofs.SrcHeap in
 /-- the regenerated bit-moving methods applicable to `self` with arguments `a`, as transitions, each with the model operation it is
 proved equal to.  `store_uint` whose `int2ba` raises and `load_uint(0)` (`ba2int` of nothing raises) are the failing transition
-(`observe` of a non-cell: heap unchanged, `err`).  `store_slice` is listed for slices with `ref_offset ≤ len(refs)` (true of every
-slice the library produces: `load_ref` raises at the end; not carried as an invariant here). -/
+(`observe` of a non-cell: heap unchanged, `err`).  (`store_slice` needs `ref_offset ≤ len(refs)` of its argument: that is the
+invariant `WF.offLe`, carried by every history.) -/
 def srcBits (H : Bytes → Bytes) (σ : State) (self : Nat) (a : SrcArgs) : List (Op × (State × Out)) :=
   (if σ.has self .builder then
     [(Op.storeBits self a.bs, Py.Heap.resultUnit σ (Builder_store_bits H σ self a.bs)),
@@ -403,8 +403,7 @@ def srcBits (H : Bytes → Bytes) (σ : State) (self : Nat) (a : SrcArgs) : List
         Py.Heap.resultUnit σ (Builder_store_uint H σ self a.v a.n))] ++
     (if σ.has a.arg .ubits then [(Op.storeFrom self a.arg, Py.Heap.resultUnit σ (Builder_store_bits H σ self (σ.bitsOf a.arg)))] else []) ++
     (if σ.has a.arg .cell then [(Op.storeFrom self a.arg, Py.Heap.resultUnit σ (Builder_store_cell H σ self a.arg))] else []) ++
-    (if σ.has a.arg .slice && decide ((σ.obj a.arg).off ≤ (σ.refBuf (σ.obj a.arg).refsId).length) then
-      [(Op.storeFrom self a.arg, Py.Heap.resultUnit σ (Builder_store_slice H σ self a.arg))] else [])
+    (if σ.has a.arg .slice then [(Op.storeFrom self a.arg, Py.Heap.resultUnit σ (Builder_store_slice H σ self a.arg))] else [])
    else []) ++
   (if σ.has self .slice then
     [(Op.peekBits self a.n, Py.Heap.resultBits σ (Slice_preload_bits H σ self a.n)),
@@ -448,15 +447,14 @@ theorem c08_src_bits_step (H : Bytes → Bytes) (σ : State) (h : Inv H σ) (sel
           · simp only [hc, if_true, List.mem_cons, List.not_mem_nil, or_false] at h3
             subst h3; exact Builder_store_cell_eq H σ h.wf self a.arg hb hc
           · simp [hc] at h3
-      · by_cases hs : (σ.has a.arg .slice && decide ((σ.obj a.arg).off ≤ (σ.refBuf (σ.obj a.arg).refsId).length)) = true
+      · by_cases hs : σ.has a.arg .slice = true
         · simp only [hs, if_true, List.mem_cons, List.not_mem_nil, or_false] at h2
           subst h2
-          simp only [Bool.and_eq_true, decide_eq_true_eq] at hs
           obtain ⟨hbi, hbt⟩ := has_iff.1 hb
-          obtain ⟨hsi, hst⟩ := has_iff.1 hs.1
+          obtain ⟨hsi, hst⟩ := has_iff.1 hs
           have hne : self ≠ a.arg := by intro e; rw [e, hst] at hbt; cases hbt
-          exact Builder_store_slice_eq H σ h.wf self a.arg hb hs.1
-            (h.sep.sepR self a.arg hbi hsi hne (by simp [hbt, Tag.owner]) (by simp [hst, Tag.hasRefs])) hs.2
+          exact Builder_store_slice_eq H σ h.wf self a.arg hb hs
+            (h.sep.sepR self a.arg hbi hsi hne (by simp [hbt, Tag.owner]) (by simp [hst, Tag.hasRefs]))
         · simp [hs] at h2
     · simp [hb] at h1
   · by_cases hs : σ.has self .slice = true
